@@ -24,6 +24,7 @@ import (
 
 	"github.com/lindb/common/pkg/ltoml"
 	protoMetricsV1 "github.com/lindb/common/proto/gen/v1/linmetrics"
+	"github.com/lindb/roaring"
 	"google.golang.org/grpc/metadata"
 
 	"github.com/lindb/lindb/config"
@@ -68,7 +69,8 @@ const (
 type lpFaults struct {
 	getShardPanic models.ShardID // Database.GetShard(id) panics: metadataLookupStage.NextStages()
 	planPanic     models.ShardID // Shard.GetDataFamilies panics: shardScanStage.Plan()
-	execPanic     models.ShardID // Shard.IndexDB panics: inside a pooled shard-scan operator
+	execPanic     models.ShardID // the shard's index database panics in GetSeriesIDsForMetric: inside the pooled shard-scan stage's MetricAllSeries operator
+	ctorPanic     models.ShardID // Shard.IndexDB panics: in the operator constructor called from shardScanStage.Plan()
 }
 
 type lpFaultBox struct {
@@ -130,10 +132,23 @@ func (s *lpShard) GetDataFamilies(t timeutil.IntervalType, r timeutil.TimeRange)
 }
 
 func (s *lpShard) IndexDB() index.MetricIndexDatabase {
-	if ft := s.f.get(); ft.execPanic != 0 && ft.execPanic == s.ShardID() {
+	if ft := s.f.get(); ft.ctorPanic != 0 && ft.ctorPanic == s.ShardID() {
 		panic(fmt.Sprintf("injected panic in Shard.IndexDB of shard %d", s.ShardID()))
 	}
-	return s.Shard.IndexDB()
+	return &lpIndexDB{MetricIndexDatabase: s.Shard.IndexDB(), f: s.f, id: s.ShardID()}
+}
+
+type lpIndexDB struct {
+	index.MetricIndexDatabase
+	f  *lpFaultBox
+	id models.ShardID
+}
+
+func (d *lpIndexDB) GetSeriesIDsForMetric(metricID metric.ID) (*roaring.Bitmap, error) {
+	if ft := d.f.get(); ft.execPanic != 0 && ft.execPanic == d.id {
+		panic(fmt.Sprintf("injected panic in MetricIndexDatabase.GetSeriesIDsForMetric of shard %d", d.id))
+	}
+	return d.MetricIndexDatabase.GetSeriesIDsForMetric(metricID)
 }
 
 // ---------------------------------------------------------------- the request/response stream
@@ -365,6 +380,7 @@ func lpScenarios() []lpScenario {
 		{name: "panic-in-first-shard-Plan", tree: "So(Al," + lpShardOK + ")", wantErr: true, metric: lpMetric, field: lpField, shards: []models.ShardID{1, 2}, faults: lpFaults{planPanic: 1}},
 		{name: "panic-in-root-NextStages", tree: "Sn", wantErr: true, metric: lpMetric, field: lpField, shards: []models.ShardID{1, 2}, faults: lpFaults{getShardPanic: 2}},
 		{name: "panic-in-pooled-operator", tree: "So(Ap," + lpShardOK + ")", wantErr: true, metric: lpMetric, field: lpField, shards: []models.ShardID{1, 2}, faults: lpFaults{execPanic: 1}},
+		{name: "panic-in-operator-constructor", tree: "So(" + lpShardOK + ",Al)", wantErr: true, metric: lpMetric, field: lpField, shards: []models.ShardID{1, 2}, faults: lpFaults{ctorPanic: 2}},
 		{name: "unreadable-plan", tree: "-", wantErr: true, metric: lpMetric, field: lpField, badPlan: true},
 		{name: "unreadable-statement", tree: "-", wantErr: true, metric: lpMetric, field: lpField, shards: []models.ShardID{1}, badStmt: true},
 		{name: "not-a-leaf-of-the-plan", tree: "-", wantErr: true, metric: lpMetric, field: lpField, shards: []models.ShardID{1}, notLeaf: true},
@@ -437,9 +453,15 @@ func (leafArea) Run(c *core.Ctx) error {
 		i    int
 	}
 	var all []sent
+	silent := 0
 	for i := 0; i < c.N; i++ {
 		if !c.Want(i) {
 			continue
+		}
+		if silent >= 3 {
+			// every unanswered request costs its whole waiting time; three are enough to decide
+			c.Note("aborted after 3 unanswered requests")
+			break
 		}
 		rng := c.Rng(i)
 		c.Begin(i)
@@ -465,7 +487,7 @@ func (leafArea) Run(c *core.Ctx) error {
 			w.db.SetLimits(&l)
 		}
 		st := w.stream
-		wait := 5 * time.Second
+		wait := 3 * time.Second
 		if sc.stopped {
 			st, wait = w.stream2, 300*time.Millisecond
 		}
@@ -508,6 +530,9 @@ func (leafArea) Run(c *core.Ctx) error {
 		what := fmt.Sprintf("leaf request scenario %s (stage tree %s)", sc.name, sc.tree)
 		switch {
 		case len(rs) == 0:
+			if !sc.stopped {
+				silent++
+			}
 			c.Fail("leaf-no-response:"+sc.name, fmt.Sprintf("%s: no response within %v", what, wait))
 		case len(rs) > 1:
 			c.Fail("leaf-more-than-one-response:"+sc.name, fmt.Sprintf("%s: %d responses", what, len(rs)))
